@@ -715,7 +715,7 @@ def clipath_check(run, binary, root, failures, model_diffs):
 
 def make_layouts(run):
     rng = run.rng.fork("layouts")
-    n = 900 if run.tier == "thorough" else 360
+    n = 2000 if run.tier == "thorough" else 360
     return fixed_layouts() + [gen_layout(rng.fork(i), i + 1) for i in range(n)]
 
 
